@@ -109,6 +109,7 @@ type gRun struct {
 	boot     []int
 	retries  []string // "<row>:<ok>" per post-start lookup of a fail-once component
 	createdAt, firstAtt, succAtt map[int]int // post-start lookups: in which attempt a node completed / a looked-up node was first tried / succeeded
+	oldEarly     []string // after retries: slots of holders COMPLETED IN THE SUCCESSFUL ATTEMPT that were given an early substitute made during an earlier, FAILED attempt
 	wiped        []string // slots of pre-filled holders that held a dummy before the start and hold nothing after it
 	spellingHits []string
 	startCreated map[int]bool // nodes whose creation completed during Run itself
@@ -124,7 +125,8 @@ type gRun struct {
 
 // rowNames: universe nodes first (scenario order), then every other registered component sorted by name.
 func runGraph(sc *gScen) *gRun {
-	env := &runEnv{clones: map[string]map[int]node{}, byPtr: map[any]string{}, closed: map[string]int{}, dummies: map[any]bool{}}
+	env := &runEnv{clones: map[string]map[int]node{}, byPtr: map[any]string{}, closed: map[string]int{}, dummies: map[any]bool{},
+		cloneGen: map[any]int{}, freshEarly: sc.retry()}
 	res := &gRun{sc: sc, rowOf: map[string]int{}, fields: map[string][]string{}, pubs: map[int]string{}, slotInfo: map[string][3]string{}}
 	var comps []any
 	for i, gn := range sc.nodes {
@@ -272,6 +274,9 @@ func runGraph(sc *gScen) *gRun {
 			}
 			for attempt := 0; attempt < 4 && !tr.created[names[i]]; attempt++ {
 				att++
+				env.mu.Lock()
+				env.curAttempt = att
+				env.mu.Unlock()
 				before := map[string]bool{}
 				for k, v := range tr.created {
 					before[k] = v
@@ -384,6 +389,9 @@ func runGraph(sc *gScen) *gRun {
 			}
 		}
 	}
+	for _, c := range env.extraClones {
+		env.byPtr[c] = fmt.Sprintf("%d#%d", c.base().Idx, c.base().Ver)
+	}
 	res.appRow = res.rowOf[framework_helper.GetComponentName(a)]
 	// boot list: priority-ordered universe post-processors (T14) first, then the observing processor
 	for i, n := range res.nodesObj {
@@ -457,6 +465,31 @@ func runGraph(sc *gScen) *gRun {
 					continue
 				}
 				res.fields[fmt.Sprintf("%d.%s", i, sn)] = readSlot(bv.FieldByName(sn), env)
+				if len(env.cloneGen) > 0 {
+					fv := bv.FieldByName(sn)
+					check := func(x reflect.Value) {
+						if !x.IsValid() || (x.Kind() != reflect.Pointer && x.Kind() != reflect.Interface) || x.IsNil() {
+							return
+						}
+						if _, isFn := x.Interface().(FN); isFn {
+							return
+						}
+						if g, ok := env.cloneGen[x.Interface()]; ok {
+							if nb, _ := asNode(x.Interface()); nb != nil {
+								if sAtt, ok := res.succAtt[nb.Idx]; ok && g < sAtt && res.createdAt[i] >= sAtt {
+									res.oldEarly = append(res.oldEarly, fmt.Sprintf("%d.%s", i, sn))
+								}
+							}
+						}
+					}
+					if fv.Kind() == reflect.Slice {
+						for q := 0; q < fv.Len(); q++ {
+							check(fv.Index(q))
+						}
+					} else {
+						check(fv)
+					}
+				}
 				if prefilled[i] {
 					fv := bv.FieldByName(sn)
 					if fv.Kind() == reflect.Slice && fv.Len() == 0 || (fv.Kind() == reflect.Pointer || fv.Kind() == reflect.Interface) && fv.IsNil() {
@@ -918,6 +951,9 @@ func (r *gRun) oracles() []string {
 			add("c07-optional-wiped", "the optional point %s held a user-supplied value before the start and was reset to nothing", k)
 			add("c09-optional-wiped", "the optional point %s held a user-supplied value before the start and was reset to nothing", k)
 		}
+	}
+	for _, k := range r.oldEarly {
+		add("c04-retry-old-early", "%s uses the early reference that was handed out during an earlier, failed attempt: something of the failed attempt stayed visible", k)
 	}
 	for _, row := range r.spellingHits {
 		add("c01-spelling-lookup", "GetComponentByName(<the name of node %s in another letter case or padded with blanks>) returned a component although nothing is registered under that spelling", row)
